@@ -651,6 +651,11 @@ fn sel_strategy_old() -> BoxedStrategy<Sel> {
 impl Property for C07 {
     type Case = RawCase;
 
+    fn fuzz(&self) -> Option<FuzzSpec> {
+        // entropy-driven target: libFuzzer's bytes replace the generator's random numbers
+        Some(FuzzSpec { target: "gen", jobs: 8, runs: 1_000_000, max_len: 1024, seeds: 64 })
+    }
+
     fn id(&self) -> &'static str {
         "C07"
     }
